@@ -133,6 +133,11 @@ func vhC13Artifact(a []int, twin bool) {
 
 var vhWorld int // the state of the file tree: bumped by the command
 var vhSnapEvents []string
+var vhSnapLineNorm, vhSnapFollow = true, true // the switches the harness handed to the API under test
+
+// what the command stub "prints": CRLF line ends, a lone CR, a TAB - the capture must come back byte for byte
+const vhStdout, vhStderr = "OUT\r\nsecond line\r\n", "ERR\r\n\twarn\rX"
+var vhExitStatus = 0
 
 func vhRecordArtifacts(paths []string, hashAlgorithms []string, gitignorePatterns []string, lStripPaths []string, lineNormalization bool, followSymlinkDirs bool) (map[string]HashObj, error) {
 	if vStubOn("matchlocal") {
@@ -146,7 +151,7 @@ func vhRecordArtifacts(paths []string, hashAlgorithms []string, gitignorePattern
 		p = paths[0]
 	}
 	ok := len(hashAlgorithms) == 1 && hashAlgorithms[0] == "sha512" && len(gitignorePatterns) == 1 && gitignorePatterns[0] == "EXCL" &&
-		len(lStripPaths) == 1 && lStripPaths[0] == "STRIP" && lineNormalization && followSymlinkDirs
+		len(lStripPaths) == 1 && lStripPaths[0] == "STRIP" && lineNormalization == vhSnapLineNorm && followSymlinkDirs == vhSnapFollow
 	vhSnapEvents = append(vhSnapEvents, "record:"+p+":world"+strconv.Itoa(vhWorld)+":"+strconv.FormatBool(ok))
 	if vBool("record.fails") {
 		return nil, errors.New("vh: recording failed")
@@ -163,13 +168,16 @@ func vhRunCommand(cmdArgs []string, runDir string) (map[string]interface{}, erro
 	if vBool("command.fails") {
 		return nil, errors.New("vh: command failed")
 	}
-	return map[string]interface{}{"return-value": float64(0), "stdout": "OUT", "stderr": "ERR"}, nil
+	return map[string]interface{}{"return-value": float64(vhExitStatus), "stdout": vhStdout, "stderr": vhStderr}, nil
 }
 
 // a = {API (0 InTotoRun, 1 record start + stop), wrapper, with command (run only), signed (0/1)}
 func vh_C13_snapshots(a []int) {
 	api, dsse, withCmd, signed := a[0], a[1] == 1, a[2] == 1, a[3] == 1
 	vhWorld, vhSnapEvents = 0, nil
+	// both switches are arbitrary (they concern the recording of artifacts only)
+	vhSnapLineNorm, vhSnapFollow, vhExitStatus = vBool("line-normalization"), vBool("follow-symlink-dirs"), vChoice("exit-status", 3)*100
+	defer func() { vhSnapLineNorm, vhSnapFollow, vhExitStatus = true, true, 0 }()
 	key := Key{}
 	if signed {
 		key = vhEdKey(0, true)
@@ -181,7 +189,7 @@ func vh_C13_snapshots(a []int) {
 		if withCmd {
 			cmd = []string{"make", "all"}
 		}
-		md, err = InTotoRun("step", "RUNDIR", []string{"MAT"}, []string{"PROD"}, cmd, key, []string{"sha512"}, []string{"EXCL"}, []string{"STRIP"}, true, true, dsse)
+		md, err = InTotoRun("step", "RUNDIR", []string{"MAT"}, []string{"PROD"}, cmd, key, []string{"sha512"}, []string{"EXCL"}, []string{"STRIP"}, vhSnapLineNorm, vhSnapFollow, dsse)
 		vObserve("run", err == nil, len(vhSnapEvents))
 		if err == nil {
 			l, ok := md.GetPayload().(Link)
@@ -197,7 +205,7 @@ func vh_C13_snapshots(a []int) {
 				l.Materials["snapshot-of-MAT"]["world"] == "0" && len(l.Materials) == 1 &&
 				l.Products["snapshot-of-PROD"]["world"] == strconv.Itoa(w) && len(l.Products) == 1 && len(l.Command) == len(cmd))
 			if withCmd {
-				vAssert("C13.run-byproducts-are-the-capture", l.ByProducts["stdout"] == "OUT" && l.ByProducts["stderr"] == "ERR" && l.ByProducts["return-value"] == float64(0))
+				vAssert("C13.run-byproducts-are-the-capture", l.ByProducts["stdout"] == vhStdout && l.ByProducts["stderr"] == vhStderr && l.ByProducts["return-value"] == float64(vhExitStatus))
 			}
 			vAssert("C13.run-signed-iff-key-given", (len(md.Sigs()) == 1) == signed)
 			if signed {
@@ -210,7 +218,7 @@ func vh_C13_snapshots(a []int) {
 		return
 	}
 	// record start ... (the step's commands run) ... record stop
-	pre, err := InTotoRecordStart("step", []string{"MAT"}, key, []string{"sha512"}, []string{"EXCL"}, []string{"STRIP"}, true, true, dsse)
+	pre, err := InTotoRecordStart("step", []string{"MAT"}, key, []string{"sha512"}, []string{"EXCL"}, []string{"STRIP"}, vhSnapLineNorm, vhSnapFollow, dsse)
 	if err != nil {
 		vAssert("C13.start-error-returns-no-link", pre == nil)
 		vReach("C13.end")
@@ -221,7 +229,7 @@ func vh_C13_snapshots(a []int) {
 	if vBool("stop.with-other-key") {
 		stopKey = vhEdKey(1, true)
 	}
-	md, err = InTotoRecordStop(pre, []string{"PROD"}, stopKey, []string{"sha512"}, []string{"EXCL"}, []string{"STRIP"}, true, true, dsse)
+	md, err = InTotoRecordStop(pre, []string{"PROD"}, stopKey, []string{"sha512"}, []string{"EXCL"}, []string{"STRIP"}, vhSnapLineNorm, vhSnapFollow, dsse)
 	vObserve("record", err == nil, len(vhSnapEvents))
 	sameKey := stopKey.KeyID == key.KeyID
 	if signed && !sameKey {
@@ -316,15 +324,51 @@ func vhWalk(root string, fn filepath.WalkFunc) error {
 		return filepath.Walk(root, fn)
 	}
 	if root == "ROOT" {
-		for _, e := range vhTree {
-			var err error
-			if e.kind == 4 {
-				err = fn(e.path, nil, errors.New("vh: walk error"))
-			} else {
-				err = fn(e.path, vhFileInfo{mode: vhMode(e.kind)}, nil)
+		// as filepath.Walk: the root directory first, then its entries in lexical order (ROOT/b, ROOT/c, the
+		// directory ROOT/sub, ROOT/sub/a); SkipDir returned for a directory skips its contents, returned for
+		// any other entry it skips the rest of the containing directory; SkipAll ends the walk quietly
+		if err := fn("ROOT", vhFileInfo{mode: fs.ModeDir}, nil); err != nil {
+			if err == filepath.SkipDir || err == filepath.SkipAll {
+				return nil
 			}
-			if err != nil {
+			return err
+		}
+		visit := func(e vhEntry) error {
+			if e.kind == 4 {
+				return fn(e.path, nil, errors.New("vh: walk error"))
+			}
+			return fn(e.path, vhFileInfo{mode: vhMode(e.kind)}, nil)
+		}
+		var top, sub []vhEntry
+		for _, e := range vhTree {
+			if strings.HasPrefix(e.path, "ROOT/sub/") {
+				sub = append(sub, e)
+			} else {
+				top = append(top, e)
+			}
+		}
+		for _, e := range top { // ROOT/b, ROOT/c, ROOT/l sort before ROOT/sub
+			if err := visit(e); err != nil {
+				if err == filepath.SkipDir || err == filepath.SkipAll {
+					return nil // the rest of ROOT, including ROOT/sub, is skipped
+				}
 				return err
+			}
+		}
+		if len(sub) > 0 {
+			if err := fn("ROOT/sub", vhFileInfo{mode: fs.ModeDir}, nil); err != nil {
+				if err == filepath.SkipDir || err == filepath.SkipAll {
+					return nil
+				}
+				return err
+			}
+			for _, e := range sub {
+				if err := visit(e); err != nil {
+					if err == filepath.SkipDir || err == filepath.SkipAll {
+						return nil
+					}
+					return err
+				}
 			}
 		}
 		return nil
@@ -336,9 +380,15 @@ func vhWalk(root string, fn filepath.WalkFunc) error {
 		}
 		if e.target == root && e.kind == 3 {
 			if err := fn(root, vhFileInfo{mode: fs.ModeDir}, nil); err != nil {
+				if err == filepath.SkipDir || err == filepath.SkipAll {
+					return nil
+				}
 				return err
 			}
-			return fn(root+"/inner", vhFileInfo{}, nil)
+			if err := fn(root+"/inner", vhFileInfo{}, nil); err != nil && err != filepath.SkipDir && err != filepath.SkipAll {
+				return err
+			}
+			return nil
 		}
 	}
 	return fn(root, nil, errors.New("vh: no such file"))
@@ -514,3 +564,17 @@ func vh_C16_calls(a []int) {
 }
 
 func init() { vhRegister("vh_C16_calls", vh_C16_calls) }
+
+// vh_C09_recorddir: what an inspection records of the verification directory (RunInspections records "."
+// or the run directory without following directory symlinks) is exactly the files present — the C13 walk
+// scenario under the settings inspections use.  a = {#entries, strip list}
+func vh_C09_recorddir(a []int) { vh_C13_walk([]int{a[0], 0, a[1]}) }
+
+func init() { vhRegister("vh_C09_recorddir", vh_C09_recorddir) }
+
+// vh_C14_byproducts: what InTotoRun stores as by-products of a step or inspection command is the capture
+// RunCommand returned, byte for byte (CRLF, lone CR and TAB included) with the exact exit status, whatever the
+// artifact-recording switches say.  a = {wrapper, signed}
+func vh_C14_byproducts(a []int) { vh_C13_snapshots([]int{0, a[0], 1, a[1]}) }
+
+func init() { vhRegister("vh_C14_byproducts", vh_C14_byproducts) }
